@@ -29,6 +29,7 @@ structure GState where
   closed : Bool := false
   g : Grammar := {}
   oracle : Option (Std.HashSet (List Tok)) := none
+  dynO : Option (List (List Tok × Int)) := none
   opOK : Bool := true
   -- current case
   cid : String := ""
@@ -74,15 +75,19 @@ def onReady (s : GState) : GState × String :=
       let r := oracleList g s.exh      -- `oracle_sound` is about exactly this set
       (some (Std.HashSet.ofList r.1), r.1.length, r.2)
     else (none, 0, false)
+  let dynO := if oracle.isSome && hasDyn g then
+      let r := dynOracle g s.exh
+      if r.2 then some r.1 else none
+    else none
   let opOK := match s.optable with
     | some t => decide (g.rules = opGrammarRules t)
     | none => true
   let termsOK := s.terms.all fun t =>
     let i := tbl.syms.getD t.sym default
     i.name == t.tok.name && t.sym < tbl.tokenCount
-  ({ s with tbl := tbl, closed := closed, g := g, oracle := oracle, opOK := opOK },
+  ({ s with tbl := tbl, closed := closed, g := g, oracle := oracle, opOK := opOK, dynO := dynO },
    s!"G {s.gid} kind={s.kind} closed={closed} states={tbl.stateCount} symbols={tbl.symbolCount} rules={g.rules.length} " ++
-   s!"simple={simple} oracle={oracle.isSome} L={s.exh} lang={langSize} fix={fix} opgrammar={opOK} terms={termsOK} nterm={s.terms.size}")
+   s!"simple={simple} oracle={oracle.isSome} dyn={dynO.isSome} L={s.exh} lang={langSize} fix={fix} opgrammar={opOK} terms={termsOK} nterm={s.terms.size}")
 
 def drvName : Outcome → String
   | .accepted _ => "acc"
@@ -153,6 +158,21 @@ def runCase (s : GState) : String :=
     | some false => if rootKind != s.g.start then s!"root-kind-is-not-the-start-rule({rootKind});" else "tree-is-not-a-derivation;"
     | _ => "")
   let judge := judge ++ (match prattMsg with
+    | some m => m ++ ";"
+    | none => "")
+  -- dynamic precedence: the root of the real tree carries the greatest total among all derivations
+  let dynMsg : Option String :=
+    match s.dynO, real with
+    | some o, some d =>
+      if s.isT && s.toks.length ≤ s.exh then
+        match maxDyn o wNoExtra with
+        | some m =>
+          let realDyn := d.root.data.dynamicPrecedence
+          if realDyn == m then none else some s!"dynamic-precedence-not-greatest(kept={realDyn},best={m})"
+        | none => none
+      else none
+    | _, _ => none
+  let judge := judge ++ (match dynMsg with
     | some m => m ++ ";"
     | none => "")
   let judge := if !s.opOK then judge ++ "opgrammar-mismatch;" else judge
